@@ -793,8 +793,14 @@ func (e *Exec) copyOp(dst, src Slice) Value {
 			n = int(src.Len.V)
 		}
 	} else {
-		m := sym.Ite(sym.Slt(dst.Len, src.Len), dst.Len, src.Len)
-		n = e.ConcInt(e.norm(m))
+		m := e.norm(sym.Ite(sym.Slt(dst.Len, src.Len), dst.Len, src.Len))
+		// copying zeros over zeros (both stores untouched since allocation)
+		// changes nothing whatever the count: keep the count symbolic
+		if src.St != nil && dst.St != nil && len(src.St.cells) == 0 && src.St.lit == "" &&
+			len(dst.St.cells) == 0 && dst.St.lit == "" {
+			return m
+		}
+		n = e.ConcInt(m)
 	}
 	if n == 0 {
 		return i64zero
